@@ -15,7 +15,11 @@ for a in sys.argv[1:]:
         tier = a.split("=")[1]
     if a.startswith("--jobs="):
         jobs = int(a.split("=")[1])
-if args and args[0] == "all":
+only = [a.split("=")[1].split(",") for a in sys.argv[1:] if a.startswith("--only=")]
+if only:
+    # --only=a,b,c : re-run these mutants/reverts against their listed checks and merge the rows into results.json
+    work = [(n, p) for n in only[0] for p in (REVERTS[n][1] if n in REVERTS else M[n][0])]
+elif args and args[0] == "all":
     work = [(n, p) for n, (props, _, _, _) in M.items() for p in props] + [(n, p) for n, (_, props) in REVERTS.items() for p in props]
 elif args and args[0] == "reverts":
     work = [(n, p) for n, (_, props) in REVERTS.items() for p in props]
@@ -90,6 +94,16 @@ with ThreadPoolExecutor(jobs) as ex:
         res += r
 missed = [(r["mutant"], r["check"], r["rc"]) for r in res if r["rc"] != 1]
 print("run:", len(res), "caught:", len(res) - len(missed), "not caught:", missed)
-if args and args[0] == "all":
+if only:
+    rp = os.path.join(ROOT, "mutants", "results.json")
+    old = json.load(open(rp))
+    keep = [r for r in old["results"] if (r["mutant"], r["check"]) not in {(x["mutant"], x["check"]) for x in res}]
+    old["results"] = sorted(keep + res, key=lambda r: (r["mutant"], r["check"]))
+    old["head"] = old["head"].split(" ")[0] + " (rows re-run later carry their own head)"
+    head = subprocess.run(["git", "-C", "/repo", "rev-parse", "--short", "HEAD"], capture_output=True, text=True).stdout.strip()
+    for r in res:
+        r["head"] = head
+    json.dump(old, open(rp, "w"), indent=1)
+elif args and args[0] == "all":
     json.dump(dict(tier=tier, head=subprocess.run(["git", "-C", "/repo", "rev-parse", "--short", "HEAD"], capture_output=True, text=True).stdout.strip(),
                    results=sorted(res, key=lambda r: (r["mutant"], r["check"]))), open(os.path.join(ROOT, "mutants", "results.json"), "w"), indent=1)
